@@ -18,7 +18,44 @@ pub fn gen_themed(src: &mut Src, tier: Tier) -> Case {
     let mut cfg = GenCfg::full(fl, alpha.clone());
     cfg.max_depth = 3;
     let a = |src: &mut Src, cfg: &GenCfg| Node::Lit(gen_char(src, cfg));
-    let node = match src.below(12) {
+    let mut forced_hay: Option<String> = None;
+    let node = match src.below(13) {
+        12 => {
+            // lookaround towers with a long literal in the innermost one, on a haystack that contains the literal:
+            // (?<=X(?=LIT))y, (?=X(?<=LIT))y, (?<=(?<=LIT)X)y, (?=(?=LIT)X)y and their negated inner forms
+            let lit = gen_literal_run(src, &cfg);
+            let lit_cps: Vec<u32> = match &lit {
+                Node::Cat(v) => v.iter().filter_map(|n| if let Node::Lit(c) = n { Some(*c) } else { None }).collect(),
+                _ => vec![],
+            };
+            let x: Vec<u32> = (0..1 + src.below(2)).map(|_| gen_char(src, &cfg)).collect();
+            let xn = Node::Cat(x.iter().map(|c| Node::Lit(*c)).collect());
+            let outer_behind = src.chance(1, 2);
+            let inner_behind = src.chance(1, 2);
+            let inner = Node::Look { behind: inner_behind, neg: src.chance(1, 5), body: Box::new(lit) };
+            // text layout: [pre] LITa X LITb [post]; the inner lookaround sees LITb (ahead of X's end) or LITa (behind X's start)
+            let body = if inner_behind { Node::Cat(vec![inner, xn]) } else { Node::Cat(vec![xn, inner]) };
+            let outer = Node::Look { behind: outer_behind, neg: false, body: Box::new(body) };
+            let tail = if src.chance(1, 2) { Node::Dot } else { Node::Empty };
+            let mut h: Vec<u32> = vec![];
+            for _ in 0..src.below(3) {
+                h.push(gen_char(src, &cfg));
+            }
+            let damage = src.chance(1, 4);
+            let mut l1 = lit_cps.clone();
+            if damage && !l1.is_empty() {
+                let k = src.below(l1.len() as u32) as usize;
+                l1[k] = gen_char(src, &cfg);
+            }
+            h.extend(l1.iter());
+            h.extend(x.iter());
+            h.extend(lit_cps.iter());
+            for _ in 0..src.below(3) {
+                h.push(gen_char(src, &cfg));
+            }
+            forced_hay = Some(cps_to_string(&h));
+            Node::Cat(vec![outer, tail])
+        }
         11 => {
             // a long literal (its UTF-8 form crosses one or more 16-byte chunk seams), shifted by a short prefix
             let mut parts = vec![];
@@ -50,7 +87,9 @@ pub fn gen_themed(src: &mut Src, tier: Tier) -> Case {
             // with a nested lookaround somewhere inside it
             let n = *src.pick(&[3u32, 9, 16, 17, 18, 26, 33]);
             let lit = Node::Cat((0..n).map(|_| a(src, &cfg)).collect());
-            let inner = Node::Look { behind: src.chance(1, 2), neg: src.chance(1, 3), body: Box::new(gen_node(src, &cfg, 3)) };
+            // the nested lookaround sometimes holds a long literal itself (direction of a lookahead inside a lookbehind)
+            let inner_body = if src.chance(1, 2) { gen_literal_run(src, &cfg) } else { gen_node(src, &cfg, 3) };
+            let inner = Node::Look { behind: src.chance(1, 2), neg: src.chance(1, 3), body: Box::new(inner_body) };
             let mut parts = vec![lit, inner, gen_node(src, &cfg, 3)];
             if src.chance(1, 2) {
                 parts.swap(0, 1);
@@ -117,6 +156,7 @@ pub fn gen_themed(src: &mut Src, tier: Tier) -> Case {
     let pat = Printer::print(&node, fl.mode);
     let maxlen = if tier == Tier::Quick { 8 } else { 12 };
     let hay = match src.below(4) {
+        _ if forced_hay.is_some() => forced_hay.take().unwrap(),
         0 | 1 => witness_hay(src, &node, fl, &alpha, 2),
         2 => {
             // a long run of one character (longer than any finite count), then a little noise
